@@ -85,9 +85,9 @@ def compare(groups, cer, soll, got, check_pool_status=False, parent=None):
     e, g = exp[1], got[1]
     if [x[0] for x in e] != [x["id"] for x in g]:
         eids, gids = [x[0] for x in e], [x["id"] for x in g]
-        if sorted(eids) == sorted(gids):
+        if sorted(map(repr, eids)) == sorted(map(repr, gids)):  # discriminators may be None
             kind = "document-order"
-        elif len(set(gids)) != len(gids):
+        elif len(set(gids)) != len(gids) and len(set(eids)) == len(eids):
             kind = "reported-more-than-once"
         else:
             kind = "coverage-or-pruning"
